@@ -188,6 +188,8 @@ class StateWorld(Run):
         """a literal gate description on ascending qubits of the register."""
         n = self.n
         m = rng.randrange(1, min(n, nmax or n) + 1)
+        if rng.random() < 0.08:
+            m = n      # a gate on the whole register takes the unmasked ("global") code path
         qubits = sorted(rng.sample(range(n), m))
         kinds = ["gen", "fmap", "bmap", "named", "fbmap"] + (["random"] if allow_random else [])
         kind = rng.choice(kinds)
@@ -460,9 +462,11 @@ class StateWorld(Run):
         rv = rng.random()
         others = [s for s in sorted(self.slots) if s != name]
         op = {"op": "measure", "slot": name}
-        if "view_operand" in self.cfg["faults"] and rv < 0.12 and others:
+        if "view_operand" in self.cfg["faults"] and rv < 0.12 and (others or rv < 0.02):
             via = "state"
-            other = rng.choice(others)
+            # (rarely) the state itself: measuring one's own stabilizers, the observable rows
+            # are then views of the very tableau the kernel works on
+            other = rng.choice(others) if others and rv >= 0.02 else name
             op["other"] = other
             ost = self.slots[other]
             obs = sut.tableau_rows(ost)[int(ost.r):self.n]
@@ -912,8 +916,6 @@ class StateWorld(Run):
             obs = sut.tableau_rows(ost)[int(ost.r):n]
             obj = ost
             if not all(rm.hermitian(p) for p in obs):
-                raise Skip()
-            if ost is st:
                 raise Skip()
         else:
             obs = sut.parse_list(op["obs"])
